@@ -3,10 +3,10 @@ import EupsModel.Lemmas.SetupForward
 namespace EupsModel.Setup
 
 theorem canon_deps_rank (db : Db) (rank : Name → Nat) (hdag : NameDag db rank) (d : Decl) (hc : Canon db d)
-    (exact : Bool) : ∀ n o j v x, Act.dep n o j v x ∈ d.actions exact → rank n < rank d.name := by
-  intro n o j v x hm
+    (exact : Bool) : ∀ n o j v x t, Act.dep n o j v x t ∈ d.actions exact → rank n < rank d.name := by
+  intro n o j v x t hm
   obtain ⟨g, hg⟩ := mem_actions d exact _ hm
-  exact hdag d (lookup_some db d.prod d hc).1 g n o j v x hg
+  exact hdag d (lookup_some db d.prod d hc).1 g n o j v x t hg
 
 @[simp] theorem record_rec?_same (d : Decl) (r : Option VroEnt) (s : St) : (record d r s).env.rec? d.name = some d.ver := by
   simp [record, Env.rec?, aget_aset_same]
@@ -98,7 +98,7 @@ theorem record_spec_gen (cfg : Cfg) (d : Decl) (reason : Option VroEnt) (s : St)
     constructor
     · refine ⟨?_, ?_, ?_⟩
       · intro var p rel hm
-        obtain ⟨app, hline⟩ := hw.path var p rel hm
+        obtain ⟨vals, app, hline, _⟩ := hw.path var p rel hm
         exact key p (hn.path var p rel hm) (by intro e; rw [e] at hline; cases hline)
       · intro var p rel hm
         have hline := hw.vars var p rel hm
@@ -400,16 +400,16 @@ namespace EupsModel.Setup
 def nameDagB (db : Db) (rank : Name → Nat) : Bool :=
   db.decls.all fun d => d.table.all fun ga =>
     match ga.2 with
-    | .dep n _ _ _ _ => decide (rank n < rank d.name)
+    | .dep n _ _ _ _ _ => decide (rank n < rank d.name)
     | _ => true
 
 theorem nameDag_of_check (db : Db) (rank : Name → Nat) (h : nameDagB db rank = true) : NameDag db rank := by
-  intro d hd g n o j v x hg
+  intro d hd g n o j v x t hg
   unfold nameDagB at h
   rw [List.all_eq_true] at h
   have h1 := h d hd
   rw [List.all_eq_true] at h1
-  have h2 := h1 (g, Act.dep n o j v x) hg
+  have h2 := h1 (g, Act.dep n o j v x t) hg
   simpa using h2
 
 end EupsModel.Setup
